@@ -153,6 +153,8 @@ class Tracer:
     def call(self, t, b, stack=()):
         f = callee_fn(t)
         args = tuple(self.operand(a, stack) for a in t["args"])
+        # a copy of a block made by jump threading stands for the block it was copied from: one call site, one expression
+        b = t.get("orig_bb", b)
         if f is None:
             return ("call", "<indirect>", None, args, b)
         return ("call", f["def"], f.get("rdef"), args, b)
